@@ -20,6 +20,7 @@ INFO = {
 
 GROUP_LABELS = {"plain": [1, 2], "merged": [3, 4], "single": [5]}
 KIND = {"plain": "labels", "merged": "bin", "single": "labels"}
+ONE_SIDED = [{"PRED": [1, 2, 5], "REF": [3, 4, 5]}, {"PRED": [3, 5], "REF": [1, 5]}]
 
 
 def _sel_labels(a: AArr):
@@ -43,6 +44,13 @@ def check_grouped(ctx: Ctx):
         for out, (it, pred, ref) in runs:
             _check_one_path(ctx, prog, f, base, out, it, pred, ref, ev, pair_cls, multi)
             n_calls += len(it.root.pipeline_calls) if out.kind == "return" else 0
+        # groups that occur on one side only (a shortcut taken for an absent group must look at
+        # the labels of the array it restricts)
+        for labels in ONE_SIDED:
+            f, runs = run_evaluate(prog, ev, labels=labels)
+            base2 = f"{f.qual}:input={it_name},labels(pred={labels['PRED']},ref={labels['REF']})"
+            for out, (it, pred, ref) in runs:
+                _check_one_path(ctx, prog, f, base2, out, it, pred, ref, ev, pair_cls, len(runs) > 1, labels)
         # R12.1 undefined labels
         _check_undefined(ctx, prog, f, base, ev)
     if n_calls < 9:
@@ -60,7 +68,8 @@ def _check_undefined(ctx, prog, f, base, ev):
                 ctx.violated("R12.1", f, node, base + f":undefined-label-in-{side}:narrowed", "the defined-label test compares in a narrowed dtype: group labels outside the array's dtype wrap around and an undefined label that aliases one of them is accepted", {"labels": repr(keys)})
 
 
-def _check_one_path(ctx, prog, f, base, out, it, pred, ref, ev, pair_cls, multi):
+def _check_one_path(ctx, prog, f, base, out, it, pred, ref, ev, pair_cls, multi, labels=None):
+        labels = labels or ARRAY_LABELS
         n_calls = 0
         if multi:
             dtxt = "; ".join(f"{norm(nd) if isinstance(nd, ast.AST) else '?'}={d}" for nd, v, d in out.decisions)
@@ -99,6 +108,13 @@ def _check_one_path(ctx, prog, f, base, out, it, pred, ref, ev, pair_cls, multi)
                 ctx.decide("R12.2", f, node, c2 + ":side", f"{nm} of the group comes from the {nm} input", a.side == side, {"got": a.describe()})
                 if isinstance(got, LabelKeys) and got.casts:
                     ctx.violated("R12.2", f, node, c2 + ":restricted", f"group labels are narrowed to a dtype ({'/'.join(got.casts)}) before the restriction: labels outside that dtype alias labels of other groups", {"got": a.describe()})
+                elif a.selection is None and a.content == "zeros" and a.is_fresh():
+                    # an all-zero array of the input's shape: the restriction exactly if none of the
+                    # group's labels occurs on that side
+                    absent = not (set(want) & set(labels[side]))
+                    ctx.decide("R12.2", f, node, c2 + ":restricted", f"an empty array stands for the restriction to {want} only if none of these labels occurs in the {nm}", absent, {"got": a.describe(), f"labels_of_{nm}": labels[side]})
+                    ctx.decide("R12.2", f, node, c2 + ":copy", "restriction works on a copy of the caller's array", True, None, nontrivial=False)
+                    continue
                 else:
                     gl = got.value if isinstance(got, LabelKeys) else got
                     ctx.decide("R12.2", f, node, c2 + ":restricted", f"array is restricted to exactly the group's labels {want}", (sorted(gl) == sorted(want)) if isinstance(gl, list) else (False if gl is None else None), {"got": a.describe()})
